@@ -191,8 +191,15 @@ func (o *object) call(this Value, argumentList []Value, eval bool, frm frame) Va
 
 		// Enter a scope, name from the native object...
 		rt := o.runtime
-		if rt.scope != nil && !eval {
-			rt.enterFunctionScope(rt.scope.lexical, this)
+		if !eval {
+			// Also when called from Go with the runtime at rest (Value.String on an
+			// array runs join, ...): without a scope of their own such calls would
+			// not count towards the stack depth limit.
+			var lexical stasher
+			if rt.scope != nil {
+				lexical = rt.scope.lexical
+			}
+			rt.enterFunctionScope(lexical, this)
 			rt.scope.frame = frame{
 				native:     true,
 				nativeFile: fn.file,
